@@ -8,6 +8,11 @@ gen_case shapes (all plain JSON, shrinkable by deleting list elements):
     {"fmt": F, "doc": ADM document, "images": {key: [ext, w, h, uid]}, "opts": {...}}        F in ADM_FORMATS
     {"fmt": "eml", "spec": mail spec}      {"fmt": "mbox", "specs": [mail spec, ...]}
     {"fmt": "zip" | "tar" | "7z", "members": [[member name, gen_case], ...]}
+    {"fmt": "edge", "kind": "txt" | "csv" | "md" | "json" | "tsv" | "eml" | "mbox", "pre": [names], "mid": [names] | None,
+     "suf": [names], "body": [tok, tok'], "enc": "utf-8" | "utf-8-sig" | "utf-16"}
+         a text whose edges / interior carry decoration characters (names of DECOR below):
+         text = pre + tok + (mid + tok' if mid is not None) + suf; plain kinds: the file IS the encoded text (raw bytes, no
+         writer in between: c05.<kind>); eml / mbox: the text is the text/plain body (base64, utf-8) of a one-part message.
 A mail attachment {"filename", "ctype", "gen": gen_case} is rendered and put into the spec as data_hex.
 """
 from __future__ import annotations
@@ -264,6 +269,71 @@ def sheet_cases(tier, seed):
     return out
 
 
+# ----------------------------------------------------------------------------------------------- decorated texts
+
+# characters that text normalisers treat specially (the same alphabet as c05_instances.DECOR): sp nl cr tab nbsp are white
+# space for str.strip(), bom zwsp nul are not
+DECOR = [("sp", " "), ("nl", "\n"), ("cr", "\r"), ("tab", "\t"), ("bom", "\ufeff"), ("nbsp", "\u00a0"), ("zwsp", "\u200b"),
+         ("nul", "\x00")]
+DECOR_CHAR = dict(DECOR)
+EDGE_PLAIN_KINDS = ["txt", "csv", "md", "json", "tsv"]
+EDGE_MAIL_KINDS = ["eml", "mbox"]
+
+
+def edge_text(g):
+    d = lambda names: "".join(DECOR_CHAR[n] for n in names)   # noqa: E731
+    body = g["body"]
+    t = d(g.get("pre") or []) + body[0]
+    if g.get("mid") is not None:
+        t += d(g["mid"]) + body[1]
+    return t + d(g.get("suf") or [])
+
+
+def _edge_frames(maxlen, names):
+    """[(pre, mid, suf)]: every sequence of 1..maxlen names placed before the text, after it, inside it, and mirrored
+    around it; shorter sequences first"""
+    import itertools
+    out = []
+    for ln in range(1, maxlen + 1):
+        for seq in itertools.product(names, repeat=ln):
+            seq = list(seq)
+            out.append((seq, None, []))
+            out.append(([], None, seq))
+            out.append(([], seq, []))
+            out.append((seq, None, seq[::-1]))
+    return out
+
+
+def edge_cases(tier, seed):
+    """Bounded-exhaustive decorated texts as extraction inputs.
+    quick:    c05.txt (utf-8): all frames of length <= 2 over the 8 DECOR names (288);  csv / md / json / tsv: length 1 (32 each);
+              eml body: all frames of length <= 2 over DECOR without cr (the mail writer has no CR in bodies) (224)
+    thorough: txt: length <= 3 (pre / suf / mid; mirrored <= 2) and length <= 2 in utf-8-sig and utf-16;  other plain kinds
+              length <= 2;  eml as quick;  mbox: length <= 2"""
+    tk = Tokens(seed)
+    body = [tk.new("B"), tk.new("B")]
+    names = [n for n, _ in DECOR]
+    out = []
+
+    def add(kind, frames, enc="utf-8"):
+        for pre, mid, suf in frames:
+            out.append((kind, {"fmt": "edge", "kind": kind, "pre": pre, "mid": mid, "suf": suf, "body": list(body), "enc": enc}))
+    quick = tier == "quick"
+    if quick:
+        add("txt", _edge_frames(2, names))
+    else:
+        add("txt", [f for f in _edge_frames(3, names) if not (len(f[0]) == 3 and len(f[2]) == 3)])
+        for enc in ("utf-8-sig", "utf-16"):
+            add("txt", _edge_frames(2, names), enc)
+    for kind in EDGE_PLAIN_KINDS[1:]:
+        add(kind, _edge_frames(1 if quick else 2, names))
+    mail_names = [n for n in names if n != "cr"]
+    add("eml", _edge_frames(2, mail_names))
+    if not quick:
+        add("mbox", _edge_frames(2, mail_names))
+    return out
+
+
 def mail_cases(seed):
     tk = Tokens(seed)
     small_txt = {"fmt": "txt", "doc": ["doc", {}, [["unit", [["p", [["t", tk.new("B")]]]], {}]]], "images": {}, "opts": {}}
@@ -381,6 +451,21 @@ def render(case):
     fmt = case["fmt"]
     if fmt == "raw":
         return "m.bin", bytes.fromhex(case["hex"])
+    if fmt == "edge":
+        text = edge_text(case)
+        kind = case["kind"]
+        if kind in EDGE_PLAIN_KINDS:
+            enc = case.get("enc", "utf-8")
+            if enc not in ("utf-8", "utf-8-sig", "utf-16"):
+                raise ValueError(enc)
+            return "c05." + kind, text.encode(enc)
+        from verif.gen import mail
+        spec = {"structure": "plain", "body_plain": text, "charset": "utf-8", "cte": "base64"}
+        if kind == "eml":
+            return "c05.eml", mail.eml(spec)
+        if kind == "mbox":
+            return "c05.mbox", mail.mbox([spec])
+        raise ValueError(kind)
     if fmt in ("eml", "mbox"):
         from verif.gen import mail
 
